@@ -107,3 +107,11 @@ def c19_parens_dropped(v):
         return False
     strip = lambda t: t.replace("(", "").replace(")", "").replace(" ", "")
     return code != res and strip(code) == strip(res)
+
+
+def c03_sibling_branch_read(v):
+    """C03 #31: a read in one branch is dropped when the name was conditionally written in a sibling branch
+    (`if c: y = 1` / `elif d: x = y` inside the region: y is not passed in)."""
+    o = v.get("observed") or {}
+    reg = o.get("region") or []
+    return any("elif d:\n    x = y" in s for s in reg)
